@@ -122,6 +122,7 @@ pub fn exec_case(prog: impl Strategy<Value = Vec<MOp>>, rich_init: bool) -> impl
     )
         .prop_map(|(prog, init, (solutions, index), state, costs, limit, parent)| ExecCase {
             parent,
+            halt: false,
             prog,
             init,
             solutions,
